@@ -643,6 +643,15 @@ def run(ctx):
         tests = [i for i in f.all_nodes() if f.N(i)['k'] == 'BinaryOperator' and f.N(i).get('op') in ('==', '!=') and any(f.const_value(x) == -1 for x in f.N(i)['ch'])]
         ctx.check(not bad and all(cp_ in f.subtree_refs(i) for i in tests), R12, '%s::overflow:EOF-tested-on-the-int' % (f.record or '?').rsplit('::', 1)[-1],
                   'the overflowing character is compared with EOF after narrowing to char: byte 0xFF is dropped', f.loc(bad[0]) if bad else f.where)
+    # the embedded server's watchdog: progress of an asynchronous write counts as activity, not only its completion
+    owp = [g for g in P.fns.values() if g.short == 'on_async_write_progress' and (g.record or '').endswith('cgi::http') and g.body is not None]
+    if owp:
+        f_ = owp[0]
+        ut = [i for i in f_.calls() if q.short_of(f_.callee(i) or '') == 'update_time']
+        cp_ = q.param_by_index(f_, 0)
+        g_done = f_.gate_edges(lambda atom, pol: f_.ref_of(atom) == cp_ and pol is True)
+        okw = len(ut) >= 1 and (not g_done or f_.point_of(ut[0])[0] in f_.reachable_blocks(cut_edges=g_done)) and q.always_before_exit(f_, ut)
+        ctx.check(okw, R11, 'http::on_async_write_progress:every-progress-is-activity', 'the inactivity deadline is pushed forward only when the write completed: a large response to a slow but steady reader is cut off after http.timeout', f_.where)
     ctx.floor(R12, 4)
     # ---------------- R13 the header map keeps different names apart
     R13 = ctx.rule('C03.R13', 'response header map: its comparator orders names as their lower-cased spellings are ordered (E3 over a grid of header names, including names that are prefixes of one another), so two '
